@@ -1,6 +1,6 @@
 """C20 - Prometheus metrics equal the sums over observed results (spec/cli/Prom.tla)."""
 import json, os
-from . import core
+from . import core, acmd
 from .main import report_rejections
 
 
@@ -28,4 +28,6 @@ def run(ctx):
                                  "below/just above every default bucket bound, observed sequentially and from 16 goroutines; the registry is gathered "
                                  "and every counter/histogram compared by TLC with the sums"})
     ctx.assumptions += ["concurrent observations commute: only the final Gather is compared", "histogram sum within 1 ns per sample + 1e-12 relative"]
+    # the command-line anchor of this property: the attack command end to end against a loopback server (spec/cli/AttackCmd.tla)
+    acmd.run_part(ctx, vh)
     return "model_checking"
